@@ -23,7 +23,7 @@ impl StepSource for Phased {
                 return Some(s);
             }
             self.stage = 1;
-            return Some(Step { c: 0, op: Op::Remount { how: (self.b.rng.below(3)) as u8 }, hard_at: None });
+            return Some(Step { c: 0, op: Op::Remount { how: (self.b.rng.below(3)) as u8 }, hard_at: None, sticky: false });
         }
         self.b.next(w, h)
     }
